@@ -1,4 +1,67 @@
-import StrumModel
+import StrumProofs.C04
+import StrumProofs.C03
+/-
+C08 — COUNT, VariantNames, VariantArray and EnumIter describe the same variant list.
+-/
 namespace Strum
-theorem c08_placeholder : True := trivial
+
+/-- `COUNT` = number of enabled variants = number of iterated items -/
+theorem count_eq (d : EnumDef) (hN : 2 * (iterTable d).length + 1 < W) :
+    enumCount d = (d.variants.filter (fun v => !v.disabled)).length ∧
+    enumCount d = (collectFuel (iterTable d).length ((iterTable d).length + 2) iterInit).length :=
+  ⟨enumCount_eq d, (iter_count d hN).symm⟩
+
+/-- `VariantNames::VARIANTS` has one entry per declared variant -/
+theorem names_len (d : EnumDef) : (variantNames d).length = d.variants.length := variant_names_length d
+
+/-- `VariantArray::VARIANTS` (field-less enums) has one entry per declared variant, in order -/
+theorem array_spec (d : EnumDef) (l : List Bytes) (h : variantArray d = some l) :
+    l = d.variants.map (·.ident) ∧ l.length = d.variants.length ∧ ∀ v ∈ d.variants, v.fields = .unit := by
+  unfold variantArray at h
+  split at h
+  · next hall =>
+    cases h
+    refine ⟨rfl, by simp, ?_⟩
+    intro v hv
+    have := List.all_eq_true.1 hall v hv
+    simpa using this
+  · cases h
+
+/-- a data-carrying variant makes the derive fail (shared with C20) -/
+theorem array_rejects_data (d : EnumDef) (v : Variant) (hv : v ∈ d.variants) (hf : v.fields ≠ .unit) :
+    variantArray d = none := by
+  unfold variantArray
+  split
+  · next hall =>
+    have := List.all_eq_true.1 hall v hv
+    simp at this; exact absurd this hf
+  · rfl
+
+/-- **Alignment.**  With no disabled variant, position `i` refers to the same variant in all four:
+    the i-th iterated item, `VariantArray::VARIANTS[i]` and `VariantNames::VARIANTS[i]`. -/
+theorem aligned (d : EnumDef) (hnd : ∀ v ∈ d.variants, v.disabled = false)
+    (hN : 2 * (iterTable d).length + 1 < W) (l : List Bytes) (ha : variantArray d = some l) :
+    enumCount d = d.variants.length ∧ l.length = d.variants.length ∧
+    (variantNames d).length = d.variants.length ∧
+    (collectFuel (iterTable d).length ((iterTable d).length + 2) iterInit).length = d.variants.length ∧
+    ∀ i (hi : i < d.variants.length),
+      l[i]? = some d.variants[i].ident ∧
+      ((iterTable d)[i]?).map (·.1) = some d.variants[i].ident ∧
+      (collectFuel (iterTable d).length ((iterTable d).length + 2) iterInit)[i]? = some i ∧
+      (variantNames d)[i]? = some (canonical d d.variants[i]) := by
+  have hen : d.enabled = d.variants := by
+    unfold EnumDef.enabled
+    rw [List.filter_eq_self]
+    intro v hv; simp [hnd v hv]
+  have hlen : (iterTable d).length = d.variants.length := by simp [iterTable, hen]
+  obtain ⟨hl, hll, _⟩ := array_spec d l ha
+  refine ⟨by rw [enumCount_eq, hen], hll, names_len d, by rw [iter_collect _ hN]; simp [hlen], ?_⟩
+  intro i hi
+  refine ⟨by rw [hl]; simp [hi], by simp [iterTable, hen, hi], ?_, ?_⟩
+  · rw [iter_collect _ hN, hlen]; simp [hi]
+  · simp [variantNames, hi, preferredName_eq_canonical]
+
+/-! non-vacuity -/
+example : variantArray { variants := [{ ident := [65] }, { ident := [66] }] } = some [[65], [66]] := by decide
+
 end Strum
